@@ -26,9 +26,16 @@ package transport
 //@   allocates
 //@   ensures result != nil && fresh(ival(result))
 //
+// The handler job (C10): the request is given to the server exactly once, and the response is written exactly
+// once unless the packet type recorded in the request's context says one-way, in which case nothing is written.
+//
 //@ func (*tcpHandler).handleConn$1
-//@   trusted
+//@   requires *t != nil && t.server != nil && t.server.config != nil && t.server.protocol != nil && *connSt != nil && connSt.conn != nil
+//@   requires [C05] len(*pkg) >= 4
 //@   noframe
+//@   allocates
+//@   site GetPacketTypeFromContext#0 ghostafter connSt.gpt = $ret0
+//@   ensures [C10] connSt.conn.nw == old(connSt.conn.nw) + (connSt.gpt == 1 ? 0 : 1)
 //
 //@ func (*tcpHandler).handleConn
 //@   requires t != nil && t.config != nil && connSt != nil && (t.config.MaxInvoke > 0 ==> t.pool != nil)
@@ -136,7 +143,6 @@ package transport
 //@ func (*TarsServer).invoke
 //@   requires ts != nil && ts.config != nil && ts.protocol != nil
 //@   requires [C05] len(pkg) >= 4
-//@   noframe
 //@   allocates
 //@   site invoke$1#0 assert [C05] len(pkg) >= 4
 //@   safety [C05]
@@ -147,9 +153,12 @@ package transport
 //@   ensures result != nil
 //
 //@ func (*udpHandler).handleUDPAddr$1
-//@   trusted
-//@   requires [C05] len(pkg) >= 4
+//@   requires *u != nil && u.server != nil && u.server.config != nil && u.server.protocol != nil && u.conn != nil
+//@   requires [C05] len(*pkg) >= 4
 //@   noframe
+//@   allocates
+//@   site GetPacketTypeFromContext#0 ghostafter u.gpt = $ret0
+//@   ensures [C10] u.conn.nw == old(u.conn.nw) + (u.gpt == 1 ? 0 : 1)
 //
 //@ func (*udpHandler).handleUDPAddr
 //@   requires u != nil && u.config != nil && u.server != nil && (u.config.MaxInvoke > 0 ==> u.pool != nil)
